@@ -1,6 +1,6 @@
 // target: kiki/src/data/mod.rs
 // leaves: DollarlessTerminalName::remove_dollars (props C08 C10 C07)
-// bound: all strings of length <= 5 over the alphabet {a, Z, $, _, é}
+// bound: all strings of length <= 5 (<= 7 in the thorough tier) over the alphabet {a, Z, $, _, é}
 #[cfg(test)]
 mod __vx_leafcheck {
     use super::*;
@@ -10,7 +10,8 @@ mod __vx_leafcheck {
         let alphabet = ['a', 'Z', '$', '_', 'é'];
         let mut all: Vec<String> = vec![String::new()];
         let mut frontier = vec![String::new()];
-        for _ in 0..5 {
+        let maxlen = if std::env::var("VX_LEAF_THOROUGH").is_ok() { 7 } else { 5 };
+        for _ in 0..maxlen {
             let mut next = vec![];
             for s in &frontier { for c in alphabet { let mut t = s.clone(); t.push(c); next.push(t); } }
             all.extend(next.iter().cloned());
